@@ -561,7 +561,16 @@ where
 		));
 	}
 
-	let orig_proof_info = tx_vec[0].clone().payment_proof;
+	// the entry of the send itself (the account may hold other entries with this slate id,
+	// e.g. a received one when the payment goes to this same wallet)
+	let orig_proof_info = match tx_vec.iter().find(|t| t.tx_type == TxLogEntryType::TxSent) {
+		Some(t) => t.payment_proof.clone(),
+		None => {
+			return Err(Error::PaymentProof(
+				"TxLogEntry with original proof info not found (is account correct?)".to_owned(),
+			));
+		}
+	};
 
 	if orig_proof_info.is_some() && slate.payment_proof.is_none() {
 		return Err(Error::PaymentProof(
